@@ -3,6 +3,7 @@ Spec: label vocabularies of GrammarEn/GrammarJa.tla are what the encoders must a
 rendering (no exception; the other sentences of a batch still decode to their derivations with Formats.tla).
 Derivations cover every label the real rule functions return, every unary-table entry, and the real failure placeholder."""
 import copy
+import json
 import os
 import random
 import re
@@ -182,13 +183,26 @@ def run(tier):
         missing = need[lang] - labels_seen[lang]
         if missing:
             raise Machinery('vacuity: labels never produced by the real rule functions on the shipped data: %s %s' % (lang, sorted(missing)))
+    # end-to-end: behaviours of Depccg.tla replayed through filter -> real parser -> every format -> reader
+    from .. import pipeline
+    e2e_rej, e2e_cov = pipeline.run_pipelines(PROP, tier, rng)
     rejects, stats = validate('traces/RenderTrace.tla', events, 'c19', per_shard=400)
+    demo = rf.render_binding_demo(events, 'c19')
     viols = []
     for (i, clause) in rejects:
         if clause.startswith(PROP + '.'):
             m = metas[i]
             viols.append(Violation(PROP, clause, '%s %s' % (m['lang'], m.get('what', '')), m))
-    cov = {'states': stats.states, 'transitions': stats.transitions, 'traces_validated_against_impl': len(events),
+    other = {}
+    for clause, m in e2e_rej:
+        if clause.startswith(PROP + '.'):
+            viols.append(Violation(PROP, clause, 'pipeline %s %s' % (m['lang'], json.dumps(m['pipeline'], sort_keys=True)), m))
+        else:
+            other[clause] = other.get(clause, 0) + 1
+    e2e_cov['clauses_of_other_properties_rejected'] = other
+    cov = {'end_to_end_pipeline_replay': e2e_cov, 'binding_demonstration': demo,
+           'states': stats.states + e2e_cov['states'], 'transitions': stats.transitions + e2e_cov['transitions'],
+           'traces_validated_against_impl': len(events) + e2e_cov['parser_events'] + e2e_cov['render_and_read_events'] + e2e_cov['filter_events'],
            'events': {'batches': n_batches, 'formats': fmts, 'labels_covered': {k: sorted(v) for k, v in labels_seen.items()}, 'events': len(events)},
            'samples': [{k: metas[i][k] for k in metas[i] if k in ('lang', 'fmt', 'what', 'text')} for i in (1, len(events) // 2, len(events))],
            'checker_cmd': stats.cmds[0] if stats.cmds else '',
